@@ -229,7 +229,10 @@ def call_strategy():
     anyv = value_strategy(np_types=["float64"])
     pos = value_strategy(nonneg=True, allow_np=False)
     anyf = value_strategy(allow_np=False)
-    text = st.sampled_from([None, "hello", "feed move", "ümlaut ✓", "a b  c"])
+    # a comment must never add a line or words to the block (C09 studies the
+    # text in depth; here it is part of "one well-formed block per call")
+    text = st.sampled_from([None, "hello", "feed move", "ümlaut ✓", "a b  c",
+                            "retract\nM112", "pocket (rough) M30", "x\r\nG0 Z-5"])
     axes = st.fixed_dictionaries({}, optional={"x": anyv, "y": anyv, "z": anyv})
     extra = st.fixed_dictionaries({}, optional={
         "F": pos, "S": pos, "E": anyv, "p": anyv, "j": anyv})
